@@ -55,13 +55,15 @@ def isDag (g : G) : Bool :=
 def valid (g : G) : Bool :=
   isDag g && !(g.nodes.any (fun n => g.sequential.contains n))
 
-/-- `add(path, dependencies)`; `none` = `ValueError` -/
+/-- `add(path, dependencies)`; `none` = `ValueError`.  A path that is registered again depends on what is
+listed now: its old in-edges are dropped first (fix F55). -/
 def add (g : G) (path : P) (deps : List P) : Option G :=
   let nodes1 := addNode g.nodes path
+  let edges0 := g.edges.filter (fun e => e.2 != path)
   let g' : G := deps.foldl (fun (acc : G) d =>
       { acc with nodes := addNode (addNode acc.nodes d) path,
                  edges := if acc.edges.contains (d, path) then acc.edges else acc.edges ++ [(d, path)] })
-    { g with nodes := nodes1 }
+    { g with nodes := nodes1, edges := edges0 }
   if valid g' then some g' else none
 
 /-- `add_sequential(path)`: a path that is registered again keeps its place (fix F54) -/
